@@ -5,6 +5,9 @@ OUT=/verif/seeded/RESULTS.txt; : > $OUT.tmp
 for d in seeded/*/; do
   n=$(basename $d); p=${n%%-*}
   [ -f $d/patch.diff ] || continue
+  # the check a change is run against is named in its meta.json (usually its own property's)
+  q=$(python3 -c "import json,sys; print(json.load(open('$d/meta.json'))['run_against_checks']['command'].split()[1])" 2>/dev/null)
+  case "$q" in C09|C10|C13|C17|C18) p=$q;; esac
   r=$(tools/seeded.sh $p /verif/$d/patch.diff 2>&1)
   rc=$(echo "$r" | grep -o 'exit=[0-9]*' | head -1)
   cls=$(echo "$r" | grep -o 'class=[A-Z-]*' | sort -u | tr '\n' ' ')
